@@ -23,6 +23,8 @@ func init() {
 	props["C11"] = runC11
 	replayers["C11"] = func(c *ctx, a []string) {
 		switch {
+		case len(a) >= 2 && a[0] == "world":
+			c11worldCase(c, a[1:])
 		case len(a) == 3 && a[0] == "align":
 			c11align(c, c02parseFlags(a[1]), c02parseEPs(a[2]))
 		case len(a) == 4 && (a[0] == "fits" || a[0] == "noop"):
@@ -201,7 +203,15 @@ func runC11(c *ctx) {
 		}
 	}
 	c.stat("align_exhaustive_grid", 1)
-	runC11multi(c, r.Fork())
+	// C11_ONLY_WORLD=1 (debugging aid): only the alignSlots grid and the world-level mode
+	if os.Getenv("C11_ONLY_WORLD") == "" {
+		runC11multi(c, r.Fork())
+	}
+	// world level (c11world.go): no-op events and in-capacity endpoint changes through the REAL pipeline
+	runC11world(c, gen.New(c.seed^0xc11f))
+	if os.Getenv("C11_ONLY_WORLD") != "" {
+		return
+	}
 	// histories: reload, spurious re-notifications, endpoint churn that fits
 	nh := 1500
 	if c.thorough() {
